@@ -16,12 +16,12 @@ def lf : PPc → Nat | .pLink .. | .pSetBlk .. => 1 | _ => 0
 /-- `tail.block` is already the block of slot `tail.index + 1` -/
 def pubf : PPc → Nat | .pPub .. => 1 | _ => 0
 /-- slot `tail.index` is written -/
-def wf : PPc → Nat | .idle | .pBlk _ | .pIdx .. | .pRet => 0 | _ => 1
+def wf : PPc → Nat | .idle | .pBlk _ | .pIdx .. | .pWr .. | .pRet => 0 | _ => 1
 /-- the index `head.block` is the block of -/
 def hnext : CPc → Nat → Nat | .oStore hi _, _ => hi + 1 | .bStore _ e _, _ => e | _, h => h
 /-- Drop, up to its read of `first` -/
 def dbulk : CPc → Bool
-  | .bIdx d | .bTail d _ | .bBlk d .. | .bNext d .. | .bSetBlk d .. | .bStore d .. => d
+  | .bIdx d | .bTail d _ | .bBlk d .. | .bRd d .. | .bNext d .. | .bSetBlk d .. | .bStore d .. => d
   | .dHead | .dTail _ | .dFirst _ => true
   | _ => false
 /-- Drop frees the blocks -/
@@ -33,6 +33,7 @@ def plOk (s : Sh) (l : PL) : Prop := l.tb = s.tailBlk ∧ l.pi = s.tailIdx ∧ (
 def PLoc (s : Sh) : PPc → Prop
   | .idle | .pBlk _ | .pRet => True
   | .pIdx _ tb => tb = s.tailBlk
+  | .pWr _ tb pi => tb = s.tailBlk ∧ pi = s.tailIdx
   | .aFirst l | .aAlloc l => plOk s l
   | .aLast l f | .aHead l f => plOk s l ∧ f = s.first
   | .aNext l f => plOk s l ∧ f = s.first ∧ s.fk < s.lk
@@ -47,7 +48,10 @@ def CLoc (s : Sh) : CPc → Prop
   | .oTail hi | .oBlk hi | .kTail hi | .kBlk hi | .lTail _ hi | .bTail _ hi | .oStore hi _ => hi = s.headIdx
   | .oNext hb hi _ => hb = s.headBlk ∧ hi = s.headIdx ∧ (hi + 1) % s.B = 0 ∧ s.hk < s.tk
   | .oSetBlk nh hi _ => hi = s.headIdx ∧ (hi + 1) % s.B = 0 ∧ s.hk < s.tk ∧ nh = s.chain (s.hk + 1)
+  | .oRd hb hi | .kRd hb hi => hb = s.headBlk ∧ hi = s.headIdx
   | .bBlk _ hi e => hi = s.headIdx ∧ e ≤ (hi / s.B + 1) * s.B
+  | .bRd _ hb ci e acc => hb = s.headBlk ∧ s.headIdx ≤ ci ∧ ci < e ∧ e ≤ s.a.tail ∧ e ≤ (s.headIdx / s.B + 1) * s.B ∧
+      acc = SpscA.slots s.a s.headIdx (ci - s.headIdx)
   | .bNext _ hb e _ => hb = s.headBlk ∧ s.hk < s.tk ∧ e / s.B = s.hk + 1
   | .bSetBlk _ nh e _ => s.hk < s.tk ∧ e / s.B = s.hk + 1 ∧ nh = s.chain (s.hk + 1)
   | .dHead => s.hk = s.tk
@@ -122,16 +126,24 @@ theorem PLoc_frame (s s' : Sh) (pp : PPc) (h : PLoc s pp)
     first | exact h | omega
 
 /-- producer steps (they need `alive`, so the consumer is not in Drop): the consumer's fields are unchanged, `tk` only
-    grows and the chain is unchanged up to `tk` -/
+    grows, the chain is unchanged up to `tk`, the level-A payloads below `a.tail` are unchanged -/
 theorem CLoc_frame (s s' : Sh) (cp : CPc) (h : CLoc s cp) (h1 : dbulk cp = false) (h2 : dwalk cp = false)
     (e1 : s'.headBlk = s.headBlk) (e2 : s'.headIdx = s.headIdx) (e3 : s'.B = s.B) (e4 : s'.hk = s.hk)
-    (tk : s.tk ≤ s'.tk) (ch : ∀ k, k ≤ s.tk → s'.chain k = s.chain k) : CLoc s' cp := by
+    (tk : s.tk ≤ s'.tk) (ch : ∀ k, k ≤ s.tk → s'.chain k = s.chain k) (tl : s.a.tail ≤ s'.a.tail)
+    (ea : ∀ n, s.headIdx + n ≤ s.a.tail → SpscA.slots s'.a s.headIdx n = SpscA.slots s.a s.headIdx n) : CLoc s' cp := by
   cases cp <;> simp only [CLoc] at h ⊢ <;> simp only [dbulk, dwalk] at h1 h2 <;>
     (try simp only [e1, e2, e3, e4]) <;> first | exact h | contradiction | skip
   next hb hi v => exact ⟨h.1, h.2.1, h.2.2.1, by omega⟩
   next nh hi v => exact ⟨h.1, h.2.1, by omega, by rw [ch _ (by omega)]; exact h.2.2.2⟩
+  next d hb ci e acc =>
+    obtain ⟨h1, h2, h3, h4, h5, h6⟩ := h
+    exact ⟨h1, h2, h3, by omega, h5, by rw [ea _ (by omega)]; exact h6⟩
   next d hb e vals => exact ⟨h.1, by omega, h.2.2⟩
   next d nh e vals => exact ⟨by omega, h.2.1, by rw [ch _ (by omega)]; exact h.2.2⟩
+
+/-- the level-A slot range grows by one slot -/
+theorem slots_succ (a : SpscA.Sh) (i n : Nat) : SpscA.slots a i (n + 1) = SpscA.slots a i n ++ [a.val (i + n)] := by
+  simp [SpscA.slots, List.range_succ]
 
 /-! tactics shared by the per-program-point lemmas `P_*.lean` (they refer to the hypothesis names of `destrP/destrC`) -/
 
@@ -166,7 +178,8 @@ set_option hygiene false in
 /-- the consumer's locals are not disturbed by a producer step -/
 macro "frameC" : tactic => `(tactic|
   (exact CLoc_frame _ _ _ cloc (by grind) (by grind) rfl rfl rfl rfl (by simp only []; omega)
-     (by intro k hk; first | rfl | (simp only [upd]; split <;> first | omega | rfl))))
+     (by intro k hk; first | rfl | (simp only [upd]; split <;> first | omega | rfl)) (by simp only []; omega)
+     (by intro n hn; first | rfl | exact SpscA.slots_upd _ _ _ _ _ hn)))
 
 set_option hygiene false in
 /-- the producer's locals are not disturbed by a consumer step -/
